@@ -190,8 +190,10 @@ impl PartialEq for Variable {
             | (Variable::Int(value1), Variable::Int(value2))
             | (Variable::Float(value1), Variable::Float(value2))
             | (Variable::String(value1), Variable::String(value2))
-            | (Variable::Tuple(value1), Variable::Tuple(value2))
-            | (Variable::Struct(value1), Variable::Struct(value2)) => value1 == value2,
+            | (Variable::Tuple(value1), Variable::Tuple(value2)) => value1 == value2,
+            // field by field: `Arc<HashMap>` equality would answer true for one struct compared with
+            // itself without looking at the fields (a NaN field is not equal to itself)
+            (Variable::Struct(value1), Variable::Struct(value2)) => **value1 == **value2,
             (Variable::Function(value1), Variable::Function(value2))
             | (Variable::Mut(value1), Variable::Mut(value2)) => Arc::ptr_eq(value1, value2),
             (Variable::Void, Variable::Void) => true,
